@@ -51,6 +51,9 @@ def descLikeArg (value : Str) : Str := ['%'] ++ escapeLike value ++ ['%']
 (other accepted formats / Julian day numbers are outside the model: callers treat them as open) -/
 def sqliteDate (v : Str) : Option Date := if isLongDateSpec v then Date.parseLong v else none
 
+/-- the comparison of a NULL `date(value)` is NULL: the row is not in the sub-query, whatever the (flipped) operator -/
+def sqliteDateIsNull (v : Str) : Bool := noDateValue v
+
 /-- `comp_op_map`: operator actually applied inside the sub-query -/
 def flipOp (op : PropOp) (neg : Bool) : PropOp :=
   if neg then
@@ -89,7 +92,9 @@ def sqlAtom (idx : Index) (today : Date) (n : NoteRow) : Atom → Option Bool
     -- rows of the sub-query for this note: property rows with that key (at most one: properties are a dict)
     let rows := n.props.filter (fun kv => kv.1 == key)
     if op == .exists then some (rows.isEmpty == neg)
-    else optAny (rows.map (fun kv => sqlCmp today op neg vt kv.2 value))
+    else optAny (rows.map (fun kv =>
+      if vt == .date && sqliteDateIsNull kv.2 && (fromDateSpec today value).toOption.isSome then some false
+      else sqlCmp today op neg vt kv.2 value))
   | .desc value cs neg =>
     let sensitive := cs || !pyIsLower value
     let arg := descLikeArg value
